@@ -5,10 +5,12 @@ package lib
 import (
 	"crypto/sha256"
 	"encoding/hex"
+	"bytes"
 	"encoding/json"
 	"flag"
 	"fmt"
 	"os"
+	"os/exec"
 	"path/filepath"
 	"regexp"
 	"runtime"
@@ -64,6 +66,11 @@ type Check struct {
 	capHit      []string
 	ReplayPath  string
 	Workers     int
+
+	// process sharding (checks whose harness has process-global state, e.g. the controlled scheduler)
+	child          bool
+	shardI, shardN int
+	extraDistinct  int64
 }
 
 var (
@@ -99,8 +106,108 @@ func New(id, level string, quickBudget, thoroughBudget time.Duration) *Check {
 	if c.Workers > 16 {
 		c.Workers = 16
 	}
+	if sh := os.Getenv("VERIF_SHARD"); sh != "" {
+		fmt.Sscanf(sh, "%d/%d", &c.shardI, &c.shardN)
+		c.child = c.shardN > 0
+		c.Workers = 1
+		if dl, err := strconv.ParseInt(os.Getenv("VERIF_DEADLINE"), 10, 64); err == nil && dl > 0 {
+			c.Deadline = time.Unix(dl, 0)
+		}
+	}
 	c.loadFindings()
 	return c
+}
+
+// IsChild reports whether this process is one shard of a delegated run; Shard returns (index, count).
+func (c *Check) IsChild() bool     { return c.child }
+func (c *Check) Shard() (int, int) { return c.shardI, c.shardN }
+
+type childReport struct {
+	Evals       int64            `json:"evals"`
+	Distinct    int64            `json:"distinct"`
+	States      int64            `json:"states"`
+	Transitions int64            `json:"transitions"`
+	Counters    map[string]int64 `json:"counters"`
+	Values      map[string]any   `json:"values"`
+	Samples     []any            `json:"samples"`
+	Caps        []string         `json:"caps"`
+	Viol        []Violation      `json:"viol"`
+	ViolCount   map[string]int   `json:"viol_count"`
+	Known       map[string]int   `json:"known"`
+}
+
+// Delegate re-executes this binary as Workers shard processes (env VERIF_SHARD=i/n); every ParallelFor / RunSeq in
+// a shard only handles its share of the indices. The parent merges the shards' reports and returns true: it must
+// then call Finish without exploring anything itself. In a shard process (and for replays) it returns false.
+func (c *Check) Delegate() bool {
+	if c.child || c.ReplayPath != "" {
+		return false
+	}
+	self, err := os.Executable()
+	if err != nil {
+		panic(err)
+	}
+	n := c.Workers
+	reps := make([]childReport, n)
+	errs := make([]error, n)
+	var wg sync.WaitGroup
+	for i := 0; i < n; i++ {
+		wg.Add(1)
+		go func(i int) {
+			defer wg.Done()
+			cmd := exec.Command(self, "-tier", c.Tier)
+			cmd.Env = append(os.Environ(), fmt.Sprintf("VERIF_SHARD=%d/%d", i, n), fmt.Sprintf("VERIF_DEADLINE=%d", c.Deadline.Unix()), "GOMAXPROCS=2")
+			cmd.Stderr = os.Stderr
+			out, err := cmd.Output()
+			if err != nil {
+				errs[i] = fmt.Errorf("shard %d: %v", i, err)
+				return
+			}
+			k := bytes.LastIndex(out, []byte("\nSHARD-REPORT "))
+			if k < 0 {
+				errs[i] = fmt.Errorf("shard %d: no report (%q)", i, trunc(string(out), 300))
+				return
+			}
+			os.Stdout.Write(out[:k+1])
+			if err := json.Unmarshal(out[k+len("\nSHARD-REPORT "):], &reps[i]); err != nil {
+				errs[i] = fmt.Errorf("shard %d: %v", i, err)
+			}
+		}(i)
+	}
+	wg.Wait()
+	for i, r := range reps {
+		if errs[i] != nil {
+			fmt.Fprintln(os.Stderr, "HARNESS ERROR:", errs[i])
+			os.Exit(2)
+		}
+		c.evals += r.Evals
+		c.extraDistinct += r.Distinct
+		c.states += r.States
+		c.transitions += r.Transitions
+		for k, v := range r.Counters {
+			x, _ := c.Cov[k].(int64)
+			c.Cov[k] = x + v
+		}
+		if i == 0 {
+			for k, v := range r.Values {
+				c.Cov[k] = v
+			}
+		}
+		for _, s := range r.Samples {
+			c.Sample(s)
+		}
+		c.capHit = append(c.capHit, r.Caps...)
+		for _, v := range r.Viol {
+			c.Violate(v)
+		}
+		for k, v := range r.Known {
+			if c.known[k] == 0 {
+				c.knownOrder = append(c.knownOrder, k)
+			}
+			c.known[k] += v
+		}
+	}
+	return true
 }
 
 func (c *Check) Thorough() bool { return c.Tier == "thorough" }
@@ -212,9 +319,23 @@ func (c *Check) Finish(rule string, exhaustive bool) {
 		exhaustive = false
 		c.Cov["caps_hit"] = c.capHit
 	}
+	if c.child {
+		r := childReport{Evals: c.evals, Distinct: int64(len(c.distinct)), States: c.states, Transitions: c.transitions, Counters: map[string]int64{},
+			Values: map[string]any{}, Samples: c.samples, Caps: c.capHit, Viol: c.viol, Known: c.known}
+		for k, v := range c.Cov {
+			if n, ok := v.(int64); ok {
+				r.Counters[k] = n
+			} else {
+				r.Values[k] = v
+			}
+		}
+		bs, _ := json.Marshal(r)
+		fmt.Printf("\nSHARD-REPORT %s", bs)
+		os.Exit(0)
+	}
 	cov := c.Cov
 	cov["evaluations"] = c.evals
-	cov["distinct_nontrivial"] = len(c.distinct)
+	cov["distinct_nontrivial"] = int64(len(c.distinct)) + c.extraDistinct
 	cov["rule"] = rule
 	if len(c.samples) == 0 {
 		c.samples = append(c.samples, "no case explored")
@@ -248,7 +369,7 @@ func (c *Check) Finish(rule string, exhaustive bool) {
 		}
 	}
 	fmt.Printf("%s tier=%s evaluations=%d distinct=%d states=%d transitions=%d exhaustive=%v wall=%.1fs violations=%d\n",
-		c.ID, c.Tier, c.evals, len(c.distinct), c.states, c.transitions, exhaustive, time.Since(c.Start).Seconds(), len(c.violSeen))
+		c.ID, c.Tier, c.evals, int64(len(c.distinct))+c.extraDistinct, c.states, c.transitions, exhaustive, time.Since(c.Start).Seconds(), len(c.violSeen))
 	if p := os.Getenv("VERIF_DUMP_SIGS"); p != "" {
 		var all []string
 		for k := range c.violSeen {
@@ -319,6 +440,9 @@ func (c *Check) ParallelFor(n int, f func(i int)) {
 				mu.Unlock()
 				if i >= n {
 					return
+				}
+				if c.child && i%c.shardN != c.shardI {
+					continue
 				}
 				f(i)
 			}
